@@ -238,7 +238,7 @@ def harness_parallel(sub, cases, shards=None, **kw):
     res = [None] * len(cases)
     infos = []
     for k, (r, info) in enumerate(outs):
-        for j, x in enumerate(r):
+        for j, x in enumerate(r[:len(chunks[k])]):
             res[k + j * shards] = x
         infos.append(info)
     return res, infos
